@@ -1,4 +1,5 @@
 import Golem.Props.C13
+import Golem.Props.C13Gen
 open Golem.Props.C13
 #print axioms throttle_identity
 #print axioms throttle_prefix
@@ -17,3 +18,21 @@ open Golem.Props.C13
 #print axioms throttle_cancel_terminates
 #print axioms throttle_closes
 #print axioms throttle_gate_waits_timer
+#print axioms demo_reachable
+#print axioms demo_eager
+#print axioms gen_throttling_caps
+#print axioms gen_throttling_closes
+#print axioms pacer_model_iter
+#print axioms data_model_iter
+#print axioms Golem.Props.Stage.PipeSources.errch_gen
+#print axioms Golem.Props.Stage.PipeSources.emit_iter_gen
+#print axioms Golem.Props.Stage.PipeSources.emit_loop_gen
+#print axioms Golem.Props.Stage.PipeSources.emit_cfg_gen
+#print axioms Golem.Props.Stage.PipeSources.unfold_iter_gen
+#print axioms Golem.Props.Stage.PipeSources.unfold_loop_gen
+#print axioms Golem.Props.Stage.PipeSources.unfold_cfg_gen
+#print axioms Golem.Props.Stage.PipeSources.forN_acts
+#print axioms Golem.Props.Stage.PipeSources.pacer_iter_gen
+#print axioms Golem.Props.Stage.PipeSources.data_iter_gen
+#print axioms Golem.Props.Stage.PipeSources.throttling_loops_gen
+#print axioms Golem.Props.Stage.PipeSources.throttling_cfg_gen
